@@ -187,8 +187,19 @@ def body_C07(ctx):
     ctx.out.coverage["rule"] = ("random and depth-profile programs expanded under all 8 configurations (the 12 names map to them "
                                 "through the extracted table T10); non-trivial = parsed, with ≥1 operator or ≥2 branches; "
                                 "distinct = distinct program shape (literals and identifiers stripped) per configuration")
+    # K2: every one of the twelve names on instrumented programs (values, events, thread names / tasks vs the reference
+    # semantics of the name's documented configuration) - an alias that is not its macro shows here with a concrete program
     import k2
-    k2.check_aliases(ctx)
+    import k2async
+    kprogs = []
+    for kind in SYNC_KINDS:
+        for name in k2.NAMES[kind]:
+            for _ in range(8 if ctx.quick() else 80):
+                kprogs.append(k2.gen_scaffold(rng, "al%d" % len(kprogs), kind, name=name, max_branches=4, max_depth=3, fail_rate=(1, 8)))
+    run_k2(ctx, kprogs)
+    k2async.body(ctx, n=32 if ctx.quick() else 320)
+    for name in sorted(set(n for ns in k2.NAMES.values() for n in ns)):
+        ctx.dist["k2:" + name] += 0
 
 
 def body_C20(ctx):
@@ -397,16 +408,17 @@ SYNC_KINDS = ["a0t0s0", "a0t1s0", "a0t0s1", "a0t1s1"]
 
 def body_C03(ctx):
     n = 160 if ctx.quick() else 1600
-    progs = scaffold_batch(ctx, SYNC_KINDS, n, max_depth=4, max_branches=4, fail_rate=(1, 12), handler_rate=(1, 4))
+    progs = scaffold_batch(ctx, SYNC_KINDS, n, max_depth=4, max_branches=4, fail_rate=(1, 12), handler_rate=(1, 4), wrap_rate=(1, 4))
     import k2
     i = 0
     for prof in ([(1, 2), (2, 2), (3, 1, 2), (1, 3, 3), (2, 3, 1, 4)] if ctx.quick() else
                  [pr for nb in (1, 2, 3) for pr in __import__("itertools").product((1, 2, 3, 4), repeat=nb)]):
         for kind in SYNC_KINDS:
-            progs.append(k2.gen_scaffold(ctx.rng, "q%d" % i, kind, profile=prof, fail_rate=(0, 1), block_rate=(1, 2)))
+            progs.append(k2.gen_scaffold(ctx.rng, "q%d" % i, kind, profile=prof, fail_rate=(0, 1), block_rate=(1, 2), wrap_rate=(1, 3)))
             i += 1
     run_k2(ctx, progs)
-    ctx.out.coverage["rule"] = ("sequential and thread-spawning macros over random and enumerated depth profiles; the real execution's "
+    ctx.out.coverage["rule"] = ("sequential and thread-spawning macros over random and enumerated depth profiles, a quarter of the operators in "
+                                "wrapper spelling (`[~]op >>> ..pipe(f) [<<<]`, incl. deferred wrappers and implicit closes); the real execution's "
                                 "global event log (callbacks, block captures, with thread names) must contain no event of step k+1 before "
                                 "the last event of step k, each chain must continue from its own previous value (values are mixed from "
                                 "the branch's own history), and value + per-thread events must equal the reference semantics")
@@ -511,6 +523,11 @@ def body_C04(ctx):
             progs.append(k2.gen_scaffold(ctx.rng, "q%d" % i, kind, profile=prof, fail_rate=(0, 1), block_rate=(0, 1)))
             i += 1
     run_k2(ctx, progs)
+    # the async kinds on uneven depth profiles (steps with exactly one active branch before the last step)
+    import k2async
+    aprofs = [(1, 3), (3, 1), (4, 1, 2), (1, 4, 2), (2, 1, 4), (1, 1, 3)] if ctx.quick() else \
+        [pr for nb in (2, 3) for pr in itertools.product((1, 2, 3, 4), repeat=nb)]
+    k2async.body(ctx, n=0, profiles=aprofs, fail_rate=(0, 1), handler_rate=(1, 2), name_rate=(1, 3), block_rate=(0, 1))
     items = [(k, s, "profiles") for s, _ in G.fam_profiles(4, 3)[:: (3 if ctx.quick() else 1)] for k in G.KINDS]
     items += [(k, s, "large") for s in G.fam_large() for k in G.KINDS]
     ctx.k1(mk_cases(items))
@@ -583,19 +600,34 @@ def body_C18(ctx):
     n = 200 if ctx.quick() else 2000
     progs = scaffold_batch(ctx, SYNC_KINDS, n, panic_rate=(1, 8), max_depth=3, handler_rate=(1, 2), block_rate=(1, 3))
     run_k2(ctx, progs)
-    ctx.out.coverage["rule"] = ("a panic injected with probability 1/8 at every callback / initial value / handler and at block captures: the "
+    # async variants (incl. the tokio task-spawning ones): one panicking callback, the driven future must panic
+    import k2async
+    k2async.body_panics(ctx)
+    # the helper functions the expansion defines (`__spawn_tokio`: a JoinError is turned into a panic) under all configurations
+    ctx.k1(mk_cases([(k, s, "profiles") for s, _ in G.fam_profiles(3, 2) for k in G.KINDS]))
+    ctx.out.coverage["rule"] = ("async variants: exactly one panicking callback per program, the future driven by the deterministic executor / "
+                                "a tokio runtime must panic (not complete, not stay pending: 10 s bound); K1 under all 8 configurations; "
+                                "a panic injected with probability 1/8 at every callback / initial value / handler and at block captures: the "
                                 "macro expression must panic (caught by catch_unwind around the invocation, 20 s watchdog against a blocked "
                                 "caller), with exactly the reference semantics' events before it and none of a later step")
 
 
 def run_chains(ctx, n, wrappers, tag):
     import k2
-    progs = k2.regression_chain_programs() + k2.gen_chain_programs(ctx.rng, n)
+    progs = k2.regression_chain_programs() + k2.matrix_chain_programs() + k2.gen_chain_programs(ctx.rng, n)
     # re-draw with the requested wrapper rate
     ids = k2.Ids()
     res, log = k2.run_chain_programs(ctx, progs)
     if res is None:
         ctx.broken.append(("K2-chains programs do not compile against the current macros (a well-typed chain must compile)", log[-3000:]))
+        src = open(os.path.join(k2.K2DIR, "k2chains", "src", "main.rs")).read()
+        pid, excerpt = k2.blame_compile_error(src, log)
+        culprit = next((p for p in progs if p.pid == pid), None)
+        if culprit is not None:
+            ctx.out.violation({"macro": culprit.name, "source": culprit.macro_input(), "program": "%s! { %s }" % (culprit.name, culprit.macro_input()),
+                               "plain_method_chain": getattr(culprit.chains[0], "plain", "") if culprit.chains else "", "compiler": excerpt,
+                               "what": "a chain that is well-typed as the documented plain method chain does not compile through the macro"},
+                              found_input=True, signature=None)
         return
     for (p, verdict) in res:
         ctx.dist["k2chains:" + p.name] += 1
@@ -795,7 +827,14 @@ def body_C17(ctx):
             break
     import k2
     k2.run_nesting_programs(ctx)
-    ctx.out.coverage["rule"] = ("K1 on 12/24-branch and 24-action programs (two-digit indices in every name position) under all 8 configurations; "
+    # hoisted-operand names in use: programs in which most operands (of every operator kind, incl. the error combinators and
+    # initial values) are blocks, several branches and positions -> a clash makes a branch run another branch's callback
+    progs = scaffold_batch(ctx, SYNC_KINDS, 100 if ctx.quick() else 1000, max_depth=3, max_branches=5, block_rate=(3, 4),
+                           fail_rate=(1, 4), handler_rate=(1, 4), name_rate=(1, 4))
+    run_k2(ctx, progs)
+    ctx.k1(mk_cases([(p.kind, p.macro_input(), "k2-blocks") for p in progs], start=300000))
+    ctx.out.coverage["rule"] = ("K2 + K1 on programs with block operands on 3/4 of all operators (every operator kind, up to 5 branches); "
+                                "K1 on 12/24-branch and 24-action programs (two-digit indices in every name position) under all 8 configurations; "
                                 "name constructors of the running code vs the model's rendering on indices up to 1234 incl. the historical "
                                 "(1,11,0)/(11,1,0) pair; K2: macros nested inside operands, block captures and handlers to depth 3, sync kinds")
 
